@@ -10,7 +10,7 @@ import (
 
 func init() { hx.Register("C16", Run) }
 
-// Run: part A (flag word under every interleaving), then part B (threshold automaton of the active health checker).
+// Run: part A (flag word under every interleaving), part A' (allocation of that word), then part B (threshold automaton of the active health checker).
 func Run(c *hx.Ctx) {
 	if len(c.Args) > 1 && c.Args[0] == "probe" { // mosnh C16 probe <results> [u h word0]: one factory-path history
 		u, h, w := uint32(1), uint32(1), uint64(0)
@@ -24,5 +24,6 @@ func Run(c *hx.Ctx) {
 		return
 	}
 	runFlags(c)
+	runAlloc(c)
 	runChecker(c)
 }
